@@ -41,6 +41,7 @@ type Result struct {
 
 type Check struct {
 	ID          string
+	Property    string // property id reported (defaults to ID); lets one property be decided by several part-checks
 	Level       string // model_checking | fault_enumeration
 	Rule        string
 	Assumptions []string
@@ -236,6 +237,11 @@ func Main(checks map[string]*Check) {
 		sort.Strings(ids)
 		HarnessFail("unknown check %q (have %v)", id, ids)
 	}
+	checkID := id
+	if ck.Property != "" {
+		id = ck.Property
+	}
+	_ = checkID
 	tier := envOr("KMV_TIER", envOr("VERIF_TIER", "quick"))
 	seed, _ := strconv.ParseInt(envOr("VERIF_SEED", "0"), 10, 64)
 	verif := envOr("KMV_VERIF", "/verif")
@@ -366,8 +372,8 @@ func Main(checks map[string]*Check) {
 		}
 		nNew++
 		h := sha256.Sum256([]byte(v.Key))
-		rp := filepath.Join(verif, "replays", fmt.Sprintf("%s-%s.json", id, hex.EncodeToString(h[:6])))
-		doc := map[string]interface{}{"property": id, "key": v.Key, "what": v.What, "replay": v.Replay, "tier": tier, "occurrences": v.Count}
+		rp := filepath.Join(verif, "replays", fmt.Sprintf("%s-%s.json", checkID, hex.EncodeToString(h[:6])))
+		doc := map[string]interface{}{"property": id, "check": checkID, "key": v.Key, "what": v.What, "replay": v.Replay, "tier": tier, "occurrences": v.Count}
 		b, _ := json.MarshalIndent(doc, "", " ")
 		os.MkdirAll(filepath.Dir(rp), 0o755)
 		os.WriteFile(rp, b, 0o644)
@@ -460,7 +466,7 @@ func Main(checks map[string]*Check) {
 	evb, _ := json.MarshalIndent(ev, "", " ")
 	evdir := filepath.Join(verif, "evidence")
 	os.MkdirAll(evdir, 0o755)
-	if err := os.WriteFile(filepath.Join(evdir, id+".json"), evb, 0o644); err != nil {
+	if err := os.WriteFile(filepath.Join(evdir, envOr("KMV_EVIDENCE_NAME", id+".json")), evb, 0o644); err != nil {
 		HarnessFail("%v", err)
 	}
 	for _, l := range lines {
